@@ -127,12 +127,17 @@ func (s *Set) SPop(count int64) []string {
 	members := make([]string, 0, count)
 	s.data.Scan(func(member string, _ struct{}) bool {
 		if count > 0 {
-			s.data.Delete(member)
 			members = append(members, member)
 			count--
+			return true
 		}
-		return true
+		return false
 	})
+	// delete after the scan: removing entries while the btree is being scanned skips members
+	// (fewer than count were popped) and panics on larger sets
+	for _, member := range members {
+		s.data.Delete(member)
+	}
 	return members
 }
 
